@@ -26,6 +26,7 @@ var files = []genFile{
 	{"Conv.lean", genConv},
 	{"Opcodes.lean", genOpcodes},
 	{"AbortOps.lean", genAbortOps},
+	{"VmFields.lean", genVmFields},
 }
 
 func main() {
